@@ -2124,7 +2124,15 @@ def _op_rename(self, op):
     with warnings.catch_warnings():
         warnings.simplefilter("ignore")
         fresh0 = cooler.Cooler(uri)
-        for n in old:
+        # with very many chromosomes the by-name comparisons go over a sample: the first and the last
+        # ones and up to 30 of those the map renames
+        if len(old) > 60:
+            renamed = [k for k, (o_, n_) in enumerate(zip(old, new)) if o_ != n_]
+            step = max(1, len(renamed) // 30)
+            sample = sorted(set(list(range(15)) + list(range(len(old) - 15, len(old))) + renamed[::step][:30]))
+        else:
+            sample = list(range(len(old)))
+        for n in [old[k] for k in sample]:
             try:
                 before[n] = (fresh0.extent(n), fresh0.matrix(balance=False).fetch(n).tolist()
                              if "count" in node.coll.pixels else None)
@@ -2184,10 +2192,14 @@ def _op_rename(self, op):
     errs = oracles.check_read(uri, n2.coll, "same object: ", deep=False, cooler_obj=clr)
     with warnings.catch_warnings():
         warnings.simplefilter("ignore")
-        for o, nn in zip(old, new):
+        reopened = None
+        for o, nn in [(old[k], new[k]) for k in sample]:
             for label, c in (("same object", clr), ("reopened", None)):
                 try:
-                    c = c or cooler.Cooler(uri)
+                    if c is None:
+                        if reopened is None:
+                            reopened = cooler.Cooler(uri)
+                        c = reopened
                     got = (c.extent(nn), c.matrix(balance=False).fetch(nn).tolist()
                            if "count" in node.coll.pixels else None)
                     if got != before[o]:
@@ -2204,7 +2216,7 @@ def _op_rename(self, op):
         with warnings.catch_warnings():
             warnings.simplefilter("ignore")
             fresh1 = cooler.Cooler(uri)
-            for o, nn in zip(old, new):
+            for o, nn in [(old[k], new[k]) for k in sample]:
                 try:
                     a = pre_sel[0].fetch(nn)
                     b = fresh1.bins().fetch(nn)
